@@ -252,8 +252,20 @@ def eq_differs(k, sel, b, which, sel2, b2):
         d2["requests"][0]["params"] = t2
     elif which == 10:
         d2["metaData"]["version"] = "4.0"
-    else:
+    elif which == 11:
         d2["structures"][0]["properties"][0]["name"] = "q"
+    elif which == 12:
+        # drop the trailing member of an or / and / tuple type (the remaining members are a strict prefix)
+        t = d2["typeAliases"][0]["type"]
+        if "items" not in t or len(t["items"]) < 2:
+            return True
+        t["items"] = t["items"][:-1]
+    else:
+        # append a member to an or / and / tuple type
+        t = d2["structures"][0]["properties"][0]["type"]
+        if "items" not in t:
+            return True
+        t["items"] = t["items"] + [t2]
     if d1 == d2:
         return True  # the edit did not change the document (same type expression drawn twice)
     a = model.LSPModel(**_copy(d1))
@@ -363,3 +375,84 @@ def gate_passes_when_valid(n_models, plugin):
         gm.json = orig_json
         gm.jsonschema.validate = orig_validate
     return len(rec.calls) == 1
+
+
+# ---------------------------------------------------------------- the gate with the REAL jsonschema.validate
+def _violations():
+    """single edits of a small valid document, each violating lsp.schema.json#/definitions/MetaModel"""
+    out = []
+
+    def base():
+        d = small_doc(31, 3, 6, "G")
+        d["structures"][0]["properties"][0]["type"] = {"kind": "map", "key": {"kind": "base", "name": "string"}, "value": {"kind": "base", "name": "string"}}
+        return d
+
+    def add(name, edit):
+        d = base()
+        edit(d)
+        out.append((name, d))
+
+    add("undeclared top-level member", lambda d: d.__setitem__("extra", 1))
+    add("missing required list", lambda d: d.pop("typeAliases"))
+    add("sinceTags holds integers", lambda d: d["structures"][0]["properties"][0].__setitem__("sinceTags", [1, 2]))
+    add("property without type", lambda d: d["structures"][0]["properties"][0].pop("type"))
+    add("unknown messageDirection", lambda d: d["requests"][0].__setitem__("messageDirection", "sideways"))
+    add("map key of base type uinteger", lambda d: d["structures"][0]["properties"][0]["type"]["key"].__setitem__("name", "uinteger"))
+    add("unknown type kind", lambda d: d["typeAliases"][0].__setitem__("type", {"kind": "weird", "name": "x"}))
+    add("enumeration of base type boolean", lambda d: d["enumerations"][0]["type"].__setitem__("name", "boolean"))
+    add("optional is a string", lambda d: d["structures"][0]["properties"][0].__setitem__("optional", "yes"))
+    add("undeclared member on a structure", lambda d: d["structures"][0].__setitem__("colour", "red"))
+    add("request without result", lambda d: d["requests"][0].pop("result"))
+    add("metaData without version", lambda d: d["metaData"].pop("version"))
+    add("unknown base type name", lambda d: d["notifications"][0].__setitem__("params", {"kind": "base", "name": "float"}))
+    add("enum value is an object", lambda d: d["enumerations"][0]["values"][0].__setitem__("value", {"a": 1}))
+    return out
+
+
+VIOLATIONS = _violations()
+VIOLATION_FILES = []
+for _i, (_n, _d) in enumerate(VIOLATIONS):
+    _p = os.path.join(_TMP, "bad%d.json" % _i)
+    with open(_p, "w") as _f:
+        json.dump(_d, _f)
+    VIOLATION_FILES.append(_p)
+
+
+def violations_are_violations():
+    """independent confirmation that every edit violates the MetaModel definition of the repository's schema file"""
+    import jsonschema
+
+    schema = json.load(open(os.path.join(os.path.dirname(model.__file__), "lsp.schema.json")))
+    schema = dict(schema)
+    schema["$ref"] = "#/definitions/MetaModel"
+    bad = []
+    for name, d in VIOLATIONS:
+        try:
+            jsonschema.validate(d, schema)
+            bad.append(name)
+        except jsonschema.ValidationError:
+            pass
+    return bad
+
+
+def gate_real(v, position, plugin):
+    """a schema-violating model file (violation v, at command-line position 0 or 1 next to a valid file): main() must fail
+    before any plugin runs and nothing is written.  jsonschema.validate is the real one (run outside the tracer)."""
+    import generator.__main__ as gm
+
+    rec = _Rec()
+    files = [VIOLATION_FILES[v], MODEL_FILES[0]] if position == 0 else [MODEL_FILES[0], VIOLATION_FILES[v]]
+    out = os.path.join(_TMP, "outreal-%d-%d-%d" % (v, position, plugin))
+    orig_plugin, orig_json, orig_validate = gm.custom_plugin, gm.json, gm.jsonschema.validate
+    gm.custom_plugin = lambda name: rec
+    gm.json = _Json
+    gm.jsonschema.validate = _untraced(orig_validate)
+    failed = False
+    try:
+        try:
+            gm.main(["--plugin", ["python", "rust", "dotnet", "testdata"][plugin], "--output-dir", out, "--model"] + files)
+        except Exception:
+            failed = True
+    finally:
+        gm.custom_plugin, gm.json, gm.jsonschema.validate = orig_plugin, orig_json, orig_validate
+    return failed and rec.calls == [] and not os.path.exists(out)
